@@ -376,7 +376,7 @@ func runC03(c *Ctx) {
 					return
 				}
 				for _, l := range leavesOf(cc.Args[0]) {
-					if l.Kind == leafFieldLoad && l.Field == "inflight" {
+					if p.isInflightLeaf(l) {
 						c.check(fn == get || fnName(fn) == "(*clientConn).broadcastErr", "R4", "delete from the in-flight table in "+fnName(fn), pos(in), "only getChannel (and the final sweep) removes entries", "an in-flight entry is deleted outside getChannel")
 					}
 				}
@@ -746,7 +746,7 @@ func runC04(c *Ctx) {
 			}
 			c.check(onClosed, "R3", "putChannel tests closed", pos(sel), "non-blocking receive on c.closed", "putChannel does not test `closed` without blocking")
 			c.check(dominates(sel, upd), "R3", "test precedes registration", pos(upd), "registration only after the closed test", "a request can be registered without the closed test")
-			c.check(heldAt(sel, root, "clientConn.Mutex") == "Lock" && heldAt(upd, root, "clientConn.Mutex") == "Lock", "R3", "test and registration under one lock hold", pos(sel), "atomic with respect to broadcastErr", "the closed test and the registration are not under the table mutex: broadcastErr can run in between")
+			c.check(p.heldInflightLock(sel, root) == "Lock" && p.heldInflightLock(upd, root) == "Lock", "R3", "test and registration under one lock hold", pos(sel), "atomic with respect to broadcastErr", "the closed test and the registration are not under the table mutex: broadcastErr can run in between")
 			// closed arm: exactly one send of an error result, returns false, no registration
 			var body *ssa.BasicBlock
 			for _, r := range *sel.Referrers() {
@@ -1352,13 +1352,13 @@ func checkBroadcastErr(c *Ctx, rule string, bcast *ssa.Function) {
 				c.bad(rule, "broadcastErr "+n, p.Pos(bcast.Pos()), why)
 				continue
 			}
-			c.check(heldAt(in, root, "clientConn.Mutex") == "Lock", rule, "broadcastErr "+n+" under mutex", pos(in), "under the table mutex", "broadcastErr's "+n+" step runs outside the table mutex: a concurrent putChannel can register after the sweep and wait forever")
+			c.check(p.heldInflightLock(in, root) == "Lock", rule, "broadcastErr "+n+" under mutex", pos(in), "under the table mutex", "broadcastErr's "+n+" step runs outside the table mutex: a concurrent putChannel can register after the sweep and wait forever")
 		}
 		if rng != nil && snd != nil && upd != nil {
 			// range over inflight; send to the ranged channel an error result; replace under the ranged key
 			overTable := false
 			for _, l := range leavesOf(rng.X) {
-				if l.Kind == leafFieldLoad && l.Field == "inflight" {
+				if p.isInflightLeaf(l) {
 					overTable = true
 				}
 			}
